@@ -251,3 +251,67 @@ func constValue(c *ssa.Const) value {
 	}
 	panic(unsupported{"const " + c.String()})
 }
+
+
+// isolate makes a private copy of a package-level value for one path: maps, slices, arrays, structs, byte strings and
+// the objects behind pointers are copied (aliasing inside the value is kept through memo); terms, integers, closures and
+// opaque library objects are immutable or identity-only and stay shared. Without it a package-level map or slice that
+// the code under test WRITES (a cache) would leak from one explored path into the next and between workers.
+func isolate(v value, memo map[*value]*value) value {
+	switch x := v.(type) {
+	case *mapV:
+		if x == nil {
+			return x
+		}
+		n := &mapV{}
+		for _, k := range x.keys {
+			n.keys = append(n.keys, isolate(k, memo))
+		}
+		for _, e := range x.vals {
+			n.vals = append(n.vals, isolate(e, memo))
+		}
+		n.orig = append(n.orig, x.orig...)
+		return n
+	case []value:
+		if x == nil {
+			return x
+		}
+		n := make([]value, len(x), cap(x))
+		for i := range x {
+			n[i] = isolate(x[i], memo)
+		}
+		return n
+	case array:
+		n := make(array, len(x))
+		for i := range x {
+			n[i] = isolate(x[i], memo)
+		}
+		return n
+	case structure:
+		n := make(structure, len(x))
+		for i := range x {
+			n[i] = isolate(x[i], memo)
+		}
+		return n
+	case iface:
+		return iface{t: x.t, v: isolate(x.v, memo)}
+	case *Str:
+		if x == nil {
+			return x
+		}
+		c := *x
+		return &c
+	case *value:
+		if x == nil {
+			return x
+		}
+		if n, ok := memo[x]; ok {
+			return n
+		}
+		n := new(value)
+		memo[x] = n
+		*n = isolate(*x, memo)
+		return n
+	}
+	return v
+}
